@@ -521,6 +521,65 @@ theorem C09_never_silent_real_partial {F} (ops : FloatOps F) (lookup : Int → R
     (hun : r.val = .unset) : UnsetOrigin ops nullable input :=
   never_silently_unset_real_of_cfg ops Generated.lexCfg (by decide) lookup nullable input hfirst r h hne hun
 
+/-- REAL, accept (any configuration): every token of the grammar `real` whose denotation converts (`ofDecimal`: inside the
+    double range) to a double other than the in-band null, and that fits `ReadReal`'s buffer, followed by blanks and a
+    delimiter, is read to exactly that double with no error, and the stream stops at the delimiter. -/
+theorem C09_accept_real {F} (ops : FloatOps F) (cfg : LexCfg) (lookup : Int → RefLookup) (nullable : Bool)
+    (tok sp rest : List Byte) (d : Byte) (dec : Decimal) (v : F)
+    (htok : isReal tok = true) (hden : denoteReal tok = some dec) (hv : ops.ofDecimal dec = some v)
+    (hnn : ops.isRealNull v = false) (hbuf : cfg.realBuf = 0 ∨ tok.length < cfg.realBuf)
+    (hsp : sp.all isSpace = true) (hd : d = 44 ∨ d = 41) :
+    attrRead ops cfg lookup .real nullable (IStream.ofBytes (tok ++ sp ++ d :: rest)) =
+      .ok ⟨.null, .real v, { left := sp.reverse ++ tok.reverse, right := d :: rest }⟩ := by
+  obtain ⟨sg, ip, fp, ex, rfl, hsg, hip1, hip, hfp, hex⟩ := isReal_shape tok htok
+  have hdd : isDelim attrDelims d = true := by rcases hd with rfl | rfl <;> decide
+  have hdn : isSpace d = false := by rcases hd with rfl | rfl <;> decide
+  -- the first character of the token
+  obtain ⟨c, u, hcu, hcs, hc36, hc44, hc41⟩ : ∃ c u, realText sg ip fp 69 ex = c :: u ∧ isSpace c = false ∧ c ≠ 36 ∧ c ≠ 44 ∧ c ≠ 41 := by
+    obtain ⟨i0, iu, rfl⟩ : ∃ i0 iu, ip = i0 :: iu := by
+      cases ip with
+      | nil => exact absurd rfl hip1
+      | cons i0 iu => exact ⟨i0, iu, rfl⟩
+    have hi0 : isDigit i0 = true := by simp at hip; exact hip.1
+    have hi0' : isSpace i0 = false ∧ i0 ≠ 36 ∧ i0 ≠ 44 ∧ i0 ≠ 41 := by
+      refine ⟨digit_not_space hi0, ?_, ?_, ?_⟩ <;> (simp [isDigit] at hi0; bomega)
+    rcases hsg with rfl | rfl | rfl
+    · exact ⟨i0, iu ++ 46 :: (fp ++ exText 69 ex), by simp [realText], hi0'.1, hi0'.2.1, hi0'.2.2.1, hi0'.2.2.2⟩
+    · exact ⟨43, i0 :: (iu ++ 46 :: (fp ++ exText 69 ex)), by simp [realText], by decide, by decide, by decide, by decide⟩
+    · exact ⟨45, i0 :: (iu ++ 46 :: (fp ++ exText 69 ex)), by simp [realText], by decide, by decide, by decide, by decide⟩
+  have hcont : RealCont (sp ++ d :: rest) := by
+    cases sp with
+    | nil => exact Or.inr ⟨d, rest, rfl, by rcases hd with rfl | rfl <;> decide, by rcases hd with rfl | rfl <;> decide,
+        by rcases hd with rfl | rfl <;> decide⟩
+    | cons a sp' =>
+      have ha : isSpace a = true := by simp at hsp; exact hsp.1
+      refine Or.inr ⟨a, sp' ++ d :: rest, rfl, space_not_digit ha, ?_, ?_⟩ <;> (simp [isSpace] at ha; bomega)
+  have hcol := realCollect_realText sg ip fp ex (sp ++ d :: rest) hsg hip1 hip hfp hex hcont
+  have hparse := parse_scanFloat_realText sg ip fp 69 ex hsg hip1 hip hfp (Or.inl rfl) hex
+  have hden' := parse_realText sg ip fp 69 ex hsg hip1 hip hfp (Or.inl rfl) hex
+  have hdec : dec = ⟨sg == [45], digitsVal (ip ++ fp) 0, exVal ex - (fp.length : Int)⟩ := by
+    unfold denoteReal at hden; rw [hden'] at hden; simpa using hden.symm
+  have hconv : ops.conv (scanFloat [] (realText sg ip fp 69 ex)).1 = .ok v := by
+    unfold FloatOps.conv; rw [hparse]; simp only; rw [← hdec, hv]
+  have hov : (cfg.realBuf != 0 && decide ((realText sg ip fp 69 ex).length ≥ cfg.realBuf)) = false := by
+    rcases hbuf with h0 | hlt
+    · simp [h0]
+    · simp; intro _; omega
+  have hpre : (IStream.ofBytes (realText sg ip fp 69 ex ++ sp ++ d :: rest)).ws =
+      { left := [], right := realText sg ip fp 69 ex ++ (sp ++ d :: rest) } := by
+    rw [hcu]
+    simpa [IStream.ofBytes] using ws_good0 [] c (u ++ (sp ++ d :: rest)) true hcs
+  have hcond : (c == 36 || c == 44 || c == 41) = false := by simp [hc36, hc44, hc41]
+  have hrne : (sp ++ d :: rest).isEmpty = false := by cases sp <;> rfl
+  have hcri := cri_delim cfg ((realText sg ip fp 69 ex).reverse) sp rest d false true Sev.null hsp hdd hdn
+  simp only [attrRead, hpre]
+  rw [hcu] at hcol hconv hov hcri ⊢
+  simp only [List.cons_append, peekC_good, hcond, Bool.false_eq_true, if_false, readReal, ws_good0 _ _ _ _ hcs, IStream.good,
+    Bool.not_false, Bool.and_self, Bool.not_true]
+  simp only [List.cons_append] at hcol
+  simp only [hcol, hov, Bool.false_eq_true, if_false, hconv, hrne, List.append_nil]
+  simp only [show Sev.null.greater Sev.null = Sev.null from rfl, hcri, realValue, hnn, Bool.false_eq_true, if_false]
+
 /-- REAL, never silent (any configuration in which `ReadReal` reports a failed conversion and the severity found after `$`
     is kept): for any input bytes whose first non-blank byte is neither NUL nor `/`, whenever `STEPattribute::STEPread`
     flags no error then either
